@@ -9,13 +9,22 @@ Part 1 (E1 lattice, real build_world):
       thorough: all 1092)  x  radius partition (menu of 5 shapes)  x  how the geometry is specified
       {radius, thickness, mixed with the top layer left to the world radius}  x  how mass is specified
       {layer density (world mass derived), layer mass (world mass derived), world mass + layer mass fractions,
-      world mass given but inconsistent with the layer densities (the shipped Nereid pattern)}  x  slices {10, 40}.
+      world mass given but inconsistent with the layer densities (the shipped Nereid pattern)}  x  slices {10, 40};
+      the slices-10 member of every configuration is additionally radius-scaled once (scale_from_world, factor rotating
+      over {0.1, 0.5, 2, 10}) and checked like a scaling step of part 2.
   Oracle: the invariants of the statement, evaluated with plain numpy on the built object, plus the boring reference
   model of the configuration itself (layer k's outer radius / thickness / mass are those the configuration asks for).
 
 Part 2 (E2 history BFS, real build_from_world / scale_from_world / build_world):
-  chains of derivations from 3 shipped roots; every operation runs under a deterministic step budget (sys.settrace
-  line counter over TidalPy frames) so that non-termination is a reported outcome.
+  chains of derivations from 3 shipped roots (Io_Simple by config name; earth_simple by file stem, so that world.name differs
+  from config['name']; nereid_dev, one layer with an explicit world mass).  Alphabet (11): build_from_world(w, {}),
+  (w, {name: w.name}), (w, {name: w.config['name']}), (w, {name: new}), (w, {}, new_name=w.name), (w, cfg_delta),
+  scale_from_world(w, s) for s in {0.1, 0.5, 2, 10}, build_world(root) again.  All histories to depth 3, thorough: then
+  canonical-state BFS to depth 5.  Every operation runs under a deterministic step budget (sys.settrace line counter over
+  TidalPy frames, private BaseException) so that non-termination is a reported outcome, never a hung checker.
+  Invariants per operation: parent world (configuration and every geometry number), new_config argument and the module-level
+  known-worlds table unchanged; name differs from the parent's; scaling multiplies every length by s and preserves volume
+  fractions; all build invariants on the result; re-building the root gives a world equal (deep fingerprint) to the first build.
 """
 import copy
 import math
@@ -43,13 +52,13 @@ STEP_BUDGET = 300_000
 
 # tolerances (relative to the natural scale given in the comment); measured pristine worst cases are recorded in
 # coverage['measured_worst'] on every run (see the builder's report for the calibration table)
-TOL_LEN = 1e-12        # lengths, relative to the world radius            (measured worst 2.3e-16)
-TOL_VOL = 1e-12        # volumes, relative to the world volume            (measured worst 6.7e-16)
-TOL_G = 1e-12          # surface gravity, relative                        (measured worst 2.3e-16)
-TOL_MASS = 1e-11       # mass sums, relative to the world mass            (measured worst 1.0e-15)
-TOL_MONO = 1e-13       # allowed *decrease* of enclosed mass, relative to the world mass (measured worst 0)
-TOL_SCALE = 1e-12      # scaled length / (s * old length) - 1             (measured worst 4.5e-16)
-TOL_FRAC = 1e-12       # volume fraction difference (absolute)            (measured worst 4.5e-16)
+TOL_LEN = 1e-12        # lengths, relative to the world radius            (measured worst 8.2e-17)
+TOL_VOL = 1e-12        # volumes, relative to the world volume            (measured worst 1.8e-16)
+TOL_G = 1e-12          # surface gravity, relative                        (measured worst 0: same expression)
+TOL_MASS = 1e-11       # mass sums, relative to the largest mass involved (measured worst 1.7e-15)
+TOL_MONO = 1e-13       # allowed *decrease* of enclosed mass, relative to the largest mass involved (measured worst 0)
+TOL_SCALE = 1e-12      # |scaled length - s * old length| / (s * old world radius)   (measured worst 3.7e-16)
+TOL_FRAC = 1e-12       # volume fraction difference (absolute)            (measured worst 4.9e-16)
 
 
 # ----------------------------------------------------------------------------------------------------------------
